@@ -236,6 +236,27 @@ func genProgram(r *hxlib.Rng) (src string, w int) {
 	return sb.String(), w
 }
 
+// genLongProgram builds a loop of several hundred iterations: thousands of
+// streamed instructions in which the same long-lived operand meets a fresh
+// value again and again (tweak schemes that repeat with a period show here).
+func genLongProgram(r *hxlib.Rng) (src string, w int) {
+	w = []int{4, 6, 8}[r.Intn(3)]
+	ty := fmt.Sprintf("uint%d", w)
+	bodies := []string{
+		"acc = (a & acc) + b\n\t\tc = c ^ acc",
+		"acc = (a & acc) + b",
+		"acc = a & (acc + b)\n\t\tc = c | acc",
+		"acc = (a & acc) ^ b\n\t\tc = (a & c) + acc",
+		"c = a & c\n\t\tacc = acc + c + b",
+		"acc = (a & acc) + b\n\t\tc = c ^ acc\n\t\tacc = acc + 1\n\t\tc = c + a",
+	}
+	body := bodies[r.Intn(len(bodies))]
+	n := 520 + r.Intn(700)
+	src = fmt.Sprintf("package main\n\nfunc main(a, b %s) %s {\n\tacc := b\n\tc := a\n\tfor i := 0; i < %d; i++ {\n\t\t%s\n\t}\n\treturn acc + c\n}\n",
+		ty, ty, n, body)
+	return src, w
+}
+
 func stream(args []string) int {
 	cf, o := hxlib.ParseCommon("c04", args, nil)
 	defer o.Close()
@@ -246,7 +267,10 @@ func stream(args []string) int {
 			continue
 		}
 		src, w := genProgram(r)
-		if i == 0 {
+		if cf.Extra == "long" {
+			src, w = genLongProgram(r)
+			o.Count("long_programs")
+		} else if i == 0 {
 			// the design-phase witness
 			src, w = "package main\n\nfunc main(a, b uint8) (uint8, uint8) {\n\tc := b + 1\n\treturn a & b, a & c\n}\n", 8
 		}
